@@ -95,6 +95,8 @@ the conversion has failed.
 # This also applies to derived types which are bind(C).
 
 
+import copy
+
 from . import typemap
 from . import util
 
@@ -107,6 +109,7 @@ cend   = "// end "
 fstart = "! start "
 fend   = "! end "
 
+_static_helpers = None
 _newlibrary = None
 def set_library(library):
     global _newlibrary
@@ -117,6 +120,14 @@ def add_all_helpers():
     """Create helper functions.
     Create helpers for all types.
     """
+    # Start from the static helpers: those created for a library
+    # processed earlier in this process are not part of this one.
+    global _static_helpers
+    if _static_helpers is None:
+        _static_helpers = (copy.deepcopy(CHelpers), copy.deepcopy(FHelpers))
+    for table, static in zip((CHelpers, FHelpers), _static_helpers):
+        table.clear()
+        table.update(copy.deepcopy(static))
     fmt = util.Scope(_newlibrary.fmtdict)
     add_external_helpers()
     add_capsule_helper()
